@@ -68,9 +68,26 @@ SerdeFails(op, A, r) ==
     [] OTHER -> {<<"tool", "unknown_serde_op">>}
 
 \* ---- behaviour outside the twenty properties (recorded as X01, never a violation of C01-C20)
-JoinIs(c, s) == TRUE
+\* classification entry points of num_traits::Float / FloatCore: they look at the words only
+ClassOf(w) == IF w.k = "n" THEN "Nan" ELSE IF w.k = "i" THEN "Infinite"
+              ELSE IF w.mag = <<>> THEN "Zero" ELSE IF BitLen(w.mag) < P THEN "Subnormal" ELSE "Normal"
+StrOf(c) == c            \* sequences of one-character strings
+CharsOf(s) == CASE s = "Nan" -> <<"N", "a", "n">> [] s = "Infinite" -> <<"I", "n", "f", "i", "n", "i", "t", "e">>
+                [] s = "Zero" -> <<"Z", "e", "r", "o">> [] s = "Subnormal" -> <<"S", "u", "b", "n", "o", "r", "m", "a", "l">>
+                [] s = "Normal" -> <<"N", "o", "r", "m", "a", "l">>
+ExtraFails(op, A, r) ==
+  LET x == A[1].x IN
+  CASE op = "classify" -> Chk(r.t = "str" /\ r.c = CharsOf(ClassOf(x.hi)), "X01", "classify_is_class_of_hi")
+    [] op = "is_nan" -> Chk(r.t = "b" /\ r.v = (x.hi.k = "n" \/ x.lo.k = "n"), "X01", "is_nan")
+    [] op = "is_infinite" -> Chk(r.t = "b" /\ r.v = (x.hi.k = "i" \/ x.lo.k = "i"), "X01", "is_infinite")
+    [] op = "is_finite" -> Chk(r.t = "b" /\ r.v = Valid(x), "X01", "is_finite_is_is_valid")
+    [] op = "is_normal" -> Chk(r.t = "b" /\ r.v = (ClassOf(x.hi) = "Normal"), "X01", "is_normal")
+    [] op = "is_zero" -> IF Valid(x) THEN Chk(r.t = "b" /\ r.v = (Value(x).mag = <<>>), "X01", "is_zero") ELSE {Skip}
+    [] op = "integer_decode" -> Chk(r.t = "panic", "X01", "integer_decode_always_panics")
+    [] OTHER -> {<<"tool", "unknown_extra_op">>}
 TextFails(op, A, r) ==
   CASE op = "fmt" -> FormatFails(A, r)
+    [] op \in {"classify", "is_nan", "is_infinite", "is_finite", "is_normal", "is_zero", "integer_decode"} -> ExtraFails(op, A, r)
     [] op = "from_str_radix" -> Chk(r.t = "str", "X01", "from_str_radix_must_fail")
     [] op = "err_display" -> Chk(r.t = "str" /\ Len(r.c) > 0, "X01", "error_display_empty")
     [] OTHER -> {<<"tool", "unknown_text_op">>}
